@@ -190,7 +190,7 @@ def _bad_op(rng, sh, k, corrupt_fn=None):
              "invalid_then_rm", "self_mention", "unknown_then_clash", "hdr_bad_predefined", "header_add",
              "grp_jstring", "unknown_then_malformed", "set_field_none", "stale_handle", "stale_handle",
              "anonymise_mentioned", "grp_edit", "grp_edit", "deep_nest", "refused_new_tag", "queued_then_flush",
-             "inplace_ref_line", "inplace_ref_line"]
+             "inplace_ref_line", "inplace_ref_line", "grp_star", "grp_star"]
     kind = rng.choice(kinds)
     tags = gen_tags(rng, k)
     if kind == "refused_new_tag" and ids:
@@ -244,6 +244,18 @@ def _bad_op(rng, sh, k, corrupt_fn=None):
                 ops_.append({"op": "rm_other_group", "id": nm})
             ops_.append({"op": "rm", "id": rng.choice(grp if rng.random() < 0.4 else ids), "how": rng.choice(["rm", "disconnect"])})
             return kind, ops_
+    if kind == "grp_star" and v == "gfa2":
+        # a further line of a group that exists already, one of whose items is '*' (after an item that resolves,
+        # and a new identifier): refused, and nothing of it stays behind
+        grp = sh.ids(["O", "U"])
+        if grp:
+            nm = rng.choice(grp)
+            rt = sh.named[nm]
+            sfx = (lambda: rng.choice("+-")) if rt == "O" else (lambda: "")
+            first = rng.choice(segs) if segs else sh.fresh(rng)
+            return kind, [{"op": "add", "line": "%s\t%s\t%s%s %s%s *%s" % (rt, nm, first, sfx(), sh.fresh(rng), sfx(), sfx()),
+                           "as": rng.choice(["str", "obj"])},
+                          {"op": "rm", "id": first, "how": "rm"}]
     if kind == "stale_handle":
         # the caller keeps a handle to a line that is replaced afterwards (a placeholder by its definition, the
         # first line of a group by the merged group), then removes / disconnects / renames through the handle
